@@ -141,7 +141,7 @@ def gen_case(rng, dom):
             # the reload happens while auto_build_role_links is off (the ordering does not depend on the role managers)
             edits.append(("cfg", ["auto_build", False]))
         rounds.append(edits)
-    return dict(dom=dom, rounds=rounds)
+    return dict(dom=dom, rounds=rounds, subcol=("user" if rng.random() < 0.3 else "sub"))
 
 
 def deep_chain_cases(rng, count):
@@ -176,7 +176,11 @@ def run_impl(case):
     """returns list of per-load observations: dict(stored_g, stored_p, err|policy, hmap, decisions)"""
     dom = case["dom"]
     ad = MemAdapter([])
-    m = casbin.Enforcer.new_model(text=MODEL_DOM if dom else MODEL_PLAIN)
+    text = MODEL_DOM if dom else MODEL_PLAIN
+    if case.get("subcol", "sub") != "sub":
+        # the subject is the FIRST policy column whatever it is called
+        text = text.replace("p = sub,", "p = %s," % case["subcol"]).replace("p.sub", "p." + case["subcol"])
+    m = casbin.Enforcer.new_model(text=text)
     e = casbin.Enforcer(m, ad)
     e.enable_auto_save(False)
     obs = []
